@@ -555,7 +555,7 @@ type c15Spec struct {
 
 type c15Harness struct{}
 
-var c15Kinds = []string{"trunc", "trunc", "byte", "byte", "u32max", "u32max", "u32zero", "u16max", "dup", "drop", "ins", "type", "magic", "lenfield", "lenfield", "resumeinfo", "resumeinfo", "frame", "frame", "frame", "manifestnum"}
+var c15Kinds = []string{"trunc", "trunc", "byte", "byte", "u32max", "u32max", "u32zero", "u16max", "dup", "drop", "ins", "type", "magic", "lenfield", "lenfield", "resumeinfo", "resumeinfo", "frame", "frame", "frame", "manifestnum", "insrecord", "insrecord", "replayfile"}
 
 // c15Begins: the FileBegin records of the recorded run (context for the "frame" mutations).
 var c15Begins []wBegin
@@ -606,7 +606,7 @@ func (c15Harness) Gen(r *verifsim.SplitMix, tier string, idx int) any {
 		if mu.Kind == "frame" {
 			mu.Stream = 1 // the first data stream
 		}
-		if mu.Kind == "manifestnum" {
+		if mu.Kind == "manifestnum" || mu.Kind == "insrecord" {
 			mu.Stream = 0
 		}
 		sp.Muts = append(sp.Muts, mu)
@@ -801,6 +801,29 @@ func applyMut(b []byte, m c15Mut, isControl, withHeader bool, r *verifsim.SplitM
 			}
 		}
 		return out, ""
+	case "insrecord":
+		// a record the recorded run never contains, inserted at a record boundary: every
+		// control type with a 32-bit count / id / length field set to a value chosen to
+		// wrap in 32-bit products (x*12, x*8, x*4), followed by a few bytes of body
+		if !isControl {
+			return out, ""
+		}
+		offs := recordBoundaries(b, withHeader)
+		if len(offs) == 0 {
+			return out, ""
+		}
+		at := int(offs[m.Pos%len(offs)])
+		typ := []byte{0x16, 0x16, 0x11, 0x15, 0x12, 0x13, 0x14, 0x17, 0x10}[m.Val%9]
+		cnt := []uint32{0x15555556, 0x20000000, 0x80000000, 0xFFFFFFFF, 0x40000001, 3, 0, 0x2AAAAAAB}[m.Val/9%8]
+		rec := []byte{typ}
+		rec = binary.BigEndian.AppendUint32(rec, cnt)
+		for i, n := 0, m.Val/72%25; i < n; i++ {
+			rec = append(rec, byte(r.Next()))
+		}
+		res := append([]byte(nil), b[:at]...)
+		res = append(res, rec...)
+		res = append(res, b[at:]...)
+		return res, fmt.Sprintf("insrecord:0x%02x", typ)
 	case "manifestnum":
 		// the manifest stays well-formed JSON with a correct length prefix; one of its
 		// numbers is absurd (counts and sizes are the peer's claims, not facts)
@@ -948,6 +971,92 @@ func applyMut(b []byte, m c15Mut, isControl, withHeader bool, r *verifsim.SplitM
 	return out, ""
 }
 
+// replayFileTranscript rewrites a recorded sender transcript (control stream first, then
+// the data streams) so that the first announced file is sent twice and the last one never.
+func replayFileTranscript(streams [][]byte, recvTarget bool) ([][]byte, bool) {
+	if !recvTarget || len(streams) < 2 {
+		return nil, false
+	}
+	ctl := streams[0]
+	offs := recordBoundaries(ctl, true)
+	type rec struct {
+		typ      byte
+		key      uint64
+		from, to int
+	}
+	var recs []rec
+	for i, o := range offs {
+		end := len(ctl)
+		if i+1 < len(offs) {
+			end = int(offs[i+1])
+		}
+		r := rec{typ: ctl[o], from: int(o), to: end}
+		ps := &posStream{r: bytes.NewReader(ctl[o:end])}
+		if _, msg, err := readControlMessage(ps); err == nil {
+			switch mm := msg.(type) {
+			case FileBegin:
+				r.key = mm.StreamID
+			case FileEnd:
+				r.key = mm.StreamID
+			case ResumeRequest:
+				r.key = mm.StreamID
+			}
+		}
+		recs = append(recs, r)
+	}
+	var keys []uint64
+	for _, r := range recs {
+		if r.typ == controlTypeFileBegin {
+			keys = append(keys, r.key)
+		}
+	}
+	if len(keys) < 2 {
+		return nil, false
+	}
+	a, b := keys[0], keys[len(keys)-1]
+	if a == b {
+		return nil, false
+	}
+	out := append([]byte(nil), ctl[:offs[0]]...)
+	var again []byte
+	for _, r := range recs {
+		switch {
+		case (r.typ == controlTypeFileBegin || r.typ == controlTypeFileEnd || r.typ == controlTypeResumeRequest) && r.key == b:
+			continue // never announced
+		case r.typ == controlTypeEnd:
+			out = append(out, again...)
+			out = append(out, ctl[r.from:r.to]...)
+		default:
+			out = append(out, ctl[r.from:r.to]...)
+			if (r.typ == controlTypeFileBegin || r.typ == controlTypeFileEnd) && r.key == a {
+				again = append(again, ctl[r.from:r.to]...)
+			}
+		}
+	}
+	ns := [][]byte{out}
+	for _, d := range streams[1:] {
+		var keep, dup []byte
+		for off := 0; off+dataChunkHeaderLen <= len(d); {
+			n := int(binary.BigEndian.Uint32(d[off+12 : off+16]))
+			end := off + dataChunkHeaderLen + n
+			if end > len(d) {
+				break
+			}
+			switch binary.BigEndian.Uint64(d[off : off+8]) {
+			case b:
+			case a:
+				keep = append(keep, d[off:end]...)
+				dup = append(dup, d[off:end]...)
+			default:
+				keep = append(keep, d[off:end]...)
+			}
+			off = end
+		}
+		ns = append(ns, append(keep, dup...))
+	}
+	return ns, true
+}
+
 func (c15Harness) Run(spec any) (res verifsim.RunResult) {
 	sp := spec.(c15Spec)
 	res.Counters = map[string]int64{}
@@ -989,6 +1098,17 @@ func (c15Harness) Run(spec any) (res verifsim.RunResult) {
 	c15Begins = rec.sw.begins
 	var applied []string
 	for _, m := range sp.Muts {
+		if m.Kind == "replayfile" {
+			// one file of the manifest is announced, sent and ended twice, another one never:
+			// the counts add up, the tree does not (a mutation across the control stream and
+			// the data streams)
+			if ns, ok := replayFileTranscript(streams, sp.Target == "recv"); ok {
+				streams = ns
+				applied = append(applied, "replayfile")
+				res.Counters["mutation:replayfile"]++
+			}
+			continue
+		}
 		i := m.Stream % len(streams)
 		nb, k := applyMut(streams[i], m, i == 0, sp.Target == "recv", mr)
 		if k != "" {
@@ -1059,8 +1179,26 @@ func (c15Harness) Run(spec any) (res verifsim.RunResult) {
 	}
 	onlyData := true
 	for _, m := range sp.Muts {
-		if m.Stream%len(streams) == 0 {
+		if m.Stream%len(streams) == 0 || m.Kind == "replayfile" {
 			onlyData = false // a changed control record or manifest is a different, well-formed request
+		}
+	}
+	if sp.Target == "recv" && sr.targetErr == nil {
+		// whatever was altered: a receiver that reports success holds every file of the manifest
+		// it was given (the one in the header it read), at the announced length
+		if ps := (&posStream{r: bytes.NewReader(streams[0])}); true {
+			if mm, err := readControlHeader(ps); err == nil {
+				for _, it := range mm.Items {
+					if it.IsDir {
+						continue
+					}
+					fi, err := os.Stat(filepath.Join(out, filepath.FromSlash(it.RelPath)))
+					if err != nil || fi.Size() != it.Size {
+						v("success-with-missing-file", strings.Join(applied, "+"), fmt.Sprintf("receiver reported success after mutated input (%v) but manifest file %s (%d bytes) is missing or has another length (%v)", applied, it.RelPath, it.Size, err))
+						break
+					}
+				}
+			}
 		}
 	}
 	if sp.Target == "recv" && sr.targetErr == nil && onlyData {
